@@ -34,14 +34,45 @@ import (
 // private name (DESCRIBE / information_schema then name the topic they read).
 // ---------------------------------------------------------------------------
 
-var c37Universe = []string{"orders", "payments", "secret", "audit_log", "orders_eu", "metrics", "t", "pii.users"}
+var c37Universe = []string{"orders", "payments", "secret", "audit_log", "orders_eu", "metrics", "t", "pii.users",
+	// families of topics whose names differ only in a number that is set off by non-word characters
+	"metrics-1", "metrics-2", "tenant-3.audit", "tenant-7.audit", "region-1", "region-2", "events.2025", "events.2026"}
+
+// c37Families: the members of one family differ only in digits (same length).
+var c37Families = [][]string{{"metrics-1", "metrics-2"}, {"tenant-3.audit", "tenant-7.audit"}, {"region-1", "region-2"}, {"events.2025", "events.2026"}}
 
 // c37SegSize: the size of topic i's only segment. The numbers are odd and all
 // sums of two of them (a topic with itself included) are distinct, so EXPLAIN's
 // byte estimate - one topic, or left + right of a join, possibly the same topic
 // twice - identifies exactly which topics' segments it counted. All sums < 1024,
 // so the estimate is printed exactly ("N B").
-var c37SegSize = []int64{1, 3, 7, 15, 25, 41, 61, 89}
+var c37SegSize = []int64{1, 3, 7, 15, 25, 41, 61, 89, 131, 161, 193, 245, 295, 363, 407, 503}
+
+// c37CheckSizes: the attribution of EXPLAIN estimates relies on distinct sums below 1024.
+func c37CheckSizes() error {
+	if len(c37SegSize) != len(c37Universe) {
+		return fmt.Errorf("%d sizes for %d topics", len(c37SegSize), len(c37Universe))
+	}
+	seen := map[int64]string{}
+	for i, a := range c37SegSize {
+		for j := i; j < len(c37SegSize); j++ {
+			for _, n := range []int64{a, a + c37SegSize[j]} {
+				who := fmt.Sprintf("%d+%d", i, j)
+				if n == a {
+					who = fmt.Sprintf("%d", i)
+				}
+				if prev, dup := seen[n]; dup && prev != who {
+					return fmt.Errorf("estimate %d is ambiguous: %s and %s", n, prev, who)
+				}
+				seen[n] = who
+				if n >= 1024 {
+					return fmt.Errorf("estimate %d would not be printed exactly", n)
+				}
+			}
+		}
+	}
+	return nil
+}
 
 func c37DecodeEstimate(n int64) ([]string, bool) {
 	for i, a := range c37SegSize {
@@ -259,6 +290,11 @@ var c37ACLs = []c37ACL{
 	{Allow: []string{"orders*", "t", "metrics"}, Deny: []string{"orders_eu"}},
 	{Allow: []string{"*"}},
 	{},
+	// one member of a digit family allowed, its sibling not
+	{Allow: []string{"orders", "metrics-1", "tenant-7.audit", "region-1", "events.2026"}},
+	{Deny: []string{"metrics-1", "tenant-3.audit", "region-2", "events.2025"}},
+	{Allow: []string{"*"}, Deny: []string{"secret", "metrics-2", "tenant-7.audit", "region-1", "events.2026"}},
+	{Allow: []string{"metrics-*", "region-*", "tenant-*", "events.*", "payments"}, Deny: []string{"metrics-2", "region-2", "tenant-3.audit", "events.2025"}},
 }
 
 // ---------------------------------------------------------------------------
@@ -520,6 +556,111 @@ func c37SwapTail(rng *rand.Rand, q c37Query, acl c37ACL) (c37Query, bool) {
 		return c37Query{t[:512] + t[512:][:at+1] + repl + t[512:][at+1+len(u):], q.Shape + "+tail_topic_swapped"}, true
 	}
 	return q, false
+}
+
+// c37SplitFamilies returns the (allowed member, forbidden sibling) pairs of the
+// digit families under acl.
+func c37SplitFamilies(acl c37ACL) [][2]string {
+	var out [][2]string
+	for _, fam := range c37Families {
+		for _, a := range fam {
+			for _, b := range fam {
+				if acl.allows(a) && !acl.allows(b) {
+					out = append(out, [2]string{a, b})
+				}
+			}
+		}
+	}
+	return out
+}
+
+// c37GenFamilyQuery writes a query that reads family member m (as the only
+// topic, as EXPLAIN subject, as either side of a join, in SHOW PARTITIONS /
+// DESCRIBE; short or longer than 512 bytes) with literals in its tail.
+func c37GenFamilyQuery(rng *rand.Rand, acl c37ACL, m string) c37Query {
+	k := func(s string) string { return c37Case(rng, s) }
+	semi := []string{"", "", ";", " ;"}[rng.Intn(4)]
+	tail := []string{"", " " + k("limit") + " 5", " " + k("last") + " 1h", " " + k("tail") + " 3", " " + k("scan full"), " " + k("where") + " _partition = 0",
+		" " + k("where") + " _offset >= 1 " + k("limit") + " 20", " " + k("limit") + " 2 " + k("last") + " 15m"}[rng.Intn(8)]
+	cols := c37Cols(rng, 0)
+	if rng.Intn(5) == 0 {
+		cols = c37Cols(rng, 520+rng.Intn(200))
+	}
+	other := c37PickTopic(rng, acl, true)
+	for other == m {
+		other = c37PickTopic(rng, acl, true)
+	}
+	jtail := " " + k("within") + " 10m " + k("last") + " 1h"
+	on := []string{"", " " + k("on") + " a._key = b._key", " " + k("on") + " a._key = json_value(b._value, '$.id')"}[rng.Intn(3)]
+	switch rng.Intn(8) {
+	case 0, 1:
+		return c37Query{k("select") + " " + cols + " " + k("from") + " " + k(m) + tail + semi, "family/select"}
+	case 2:
+		return c37Query{k("explain") + " " + k("select") + " " + cols + " " + k("from") + " " + k(m) + tail + semi, "family/explain"}
+	case 3, 4:
+		jkw := []string{k("join"), k("left") + " " + k("join")}[rng.Intn(2)]
+		return c37Query{k("select") + " * " + k("from") + " " + k(other) + " a " + jkw + " " + k(m) + " b" + on + jtail + semi, "family/join_topic"}
+	case 5:
+		ex := ""
+		if rng.Intn(3) == 0 {
+			ex = k("explain") + " "
+		}
+		return c37Query{ex + k("select") + " * " + k("from") + " " + k(m) + " a " + k("join") + " " + k(other) + " b" + on + jtail + semi, "family/join_primary"}
+	case 6:
+		return c37Query{k("show partitions from") + " " + k(m) + semi, "family/show_partitions"}
+	default:
+		return c37Query{k("describe") + " " + k(m) + semi, "family/describe"}
+	}
+}
+
+// c37SwapMember replaces every occurrence (any letter case) of family member a
+// by its sibling b; the two differ only in digits, so the text is otherwise
+// byte for byte the same.
+func c37SwapMember(text, a, b string) string {
+	if len(a) != len(b) {
+		panic("c37: family members must have the same length")
+	}
+	out := []byte(text)
+	lower := strings.ToLower(text)
+	for from := 0; ; {
+		i := strings.Index(lower[from:], a)
+		if i < 0 {
+			break
+		}
+		i += from
+		for k := 0; k < len(a); k++ {
+			if a[k] != b[k] {
+				out[i+k] = b[k]
+			}
+		}
+		from = i + len(a)
+	}
+	return string(out)
+}
+
+// c37FamilySession: an allowed family member is queried first (possibly again,
+// respelled, so that a cached decision is also hit legitimately), then the very
+// same text with the forbidden sibling's digits.
+func c37FamilySession(rng *rand.Rand, acl c37ACL, pairs [][2]string) []c37Query {
+	var qs []c37Query
+	for i, n := 0, 1+rng.Intn(2); i < n; i++ {
+		pr := pairs[rng.Intn(len(pairs))]
+		q1 := c37GenFamilyQuery(rng, acl, pr[0])
+		q1.Shape += "/allowed_member"
+		qs = append(qs, q1)
+		if rng.Intn(3) == 0 {
+			qs = append(qs, c37Variant(rng, q1))
+		}
+		q2 := c37Query{c37SwapMember(q1.Text, pr[0], pr[1]), strings.TrimSuffix(q1.Shape, "/allowed_member") + "/forbidden_sibling"}
+		if rng.Intn(3) == 0 {
+			q2 = c37Variant(rng, q2)
+		}
+		qs = append(qs, q2)
+		if rng.Intn(4) == 0 {
+			qs = append(qs, q1)
+		}
+	}
+	return qs
 }
 
 // ---------------------------------------------------------------------------
@@ -811,7 +952,7 @@ func c37Squeeze(q string) string { return strings.Join(strings.Fields(q), " ") }
 
 func TestVerifC37Proxy(t *testing.T) {
 	r := verifkit.Start(t, "C37", "proxy")
-	defer r.Finish("real proxy (proxy.New + handleConn per accepted loopback connection, default dialer) in front of the real SQL server whose lister/decoder/resolver seams record topic accesses; sessions of 1-6 messages (single topic, joins, EXPLAIN, SHOW PARTITIONS, DESCRIBE, SHOW TOPICS, catalog, SET, extended-protocol Parse; the interesting topic placed before / across / at / beyond byte 512 by whitespace or a long column list; respellings and same-first-512-bytes siblings inside one session to meet the decision cache) x 9 ACL configurations x cache sizes. Per client message the bytes the proxy wrote to the upstream are parsed (tee): either nothing, or exactly one Query message whose text equals the client's; nothing but Query messages is ever forwarded; for a forwarded query every existing topic the upstream read (segment decoded, partitions listed, segments counted by EXPLAIN, schema column or catalog name returned) must be allowed by a reference reading of the ACL. non-trivial = a forwarded query that made the upstream read at least one topic under an ACL that forbids some topic",
+	defer r.Finish("real proxy (proxy.New + handleConn per accepted loopback connection, default dialer) in front of the real SQL server whose lister/decoder/resolver seams record topic accesses; sessions of 1-6 messages (single topic, joins, EXPLAIN, SHOW PARTITIONS, DESCRIBE, SHOW TOPICS, catalog, SET, extended-protocol Parse; the interesting topic placed before / across / at / beyond byte 512 by whitespace or a long column list; respellings and same-first-512-bytes siblings inside one session to meet the decision cache) x 13 ACL configurations x cache sizes (decision cache TTL one hour in every session); the upstream also holds four families of topics whose names differ only in a number set off by non-word characters (metrics-1/-2, tenant-3.audit/tenant-7.audit, region-1/-2, events.2025/.2026), four ACLs allow one member and forbid its sibling (allow list, deny list, * with deny, prefix* with deny), and under those every second session (cache size 1, 2 or 100) sends a query on the allowed member (only topic, EXPLAIN, either side of a join, SHOW PARTITIONS, DESCRIBE, with literals in its tail; sometimes repeated respelled) and then the byte-identical text with the forbidden sibling's digits. Per client message the bytes the proxy wrote to the upstream are parsed (tee): either nothing, or exactly one Query message whose text equals the client's; nothing but Query messages is ever forwarded; for a forwarded query every existing topic the upstream read (segment decoded, partitions listed, segments counted by EXPLAIN, schema column or catalog name returned) must be allowed by a reference reading of the ACL. non-trivial = a forwarded query that made the upstream read at least one topic under an ACL that forbids some topic",
 		"the accept loops of proxy.Run and server.Run are reproduced by the harness (port 0 listeners); handleConn / handleConnection are the code under test",
 		"a topic that does not exist upstream (e.g. a name with a trailing ';') cannot be read and is never counted",
 		"queries are ASCII: the parser crash on length-changing runes (C35) would kill the proxy process too",
@@ -826,6 +967,9 @@ func TestVerifC37Proxy(t *testing.T) {
 				return
 			}
 		}
+	}
+	if err := c37CheckSizes(); err != nil {
+		t.Fatalf("harness: %v", err)
 	}
 	const workers = 4 // each with its own proxy listener, upstream server and recorder
 	n := r.N(400, 6000)
@@ -846,6 +990,8 @@ func TestVerifC37Proxy(t *testing.T) {
 	r.Floor("denied", int64(n/8))
 	r.Floor("queries_longer_than_512", int64(n/4))
 	r.Floor("shapes", 30)
+	r.Floor("forbidden_digit_sibling_sent_after_forwarded_allowed_member", int64(n/16))
+	r.Floor("digit_sibling_shapes", 6)
 }
 
 func c37Session(r *verifkit.Run, env *c37Env, si int) {
@@ -869,6 +1015,12 @@ func c37Session(r *verifkit.Run, env *c37Env, si int) {
 				qs = append(qs, sw)
 			}
 		}
+	}
+	if pairs := c37SplitFamilies(acl); len(pairs) > 0 && rng.Intn(2) == 0 {
+		// the ACL separates members of a digit family: allowed member first, forbidden sibling second,
+		// decision cache enabled (TTL is one hour in every session)
+		qs = c37FamilySession(rng, acl, pairs)
+		cacheEntries = []int{1, 2, 100}[rng.Intn(3)]
 	}
 	c37Judge(r, env, si, aclIdx, acl, cacheEntries, qs)
 }
@@ -924,6 +1076,19 @@ func c37Judge(r *verifkit.Run, env *c37Env, si, aclIdx int, acl c37ACL, cacheEnt
 			r.Seen("shapes", q.Shape)
 			if len(strings.TrimSpace(q.Text)) > 512 {
 				r.Count("queries_longer_than_512", 1)
+			}
+			if strings.HasPrefix(q.Shape, "family/") && strings.Contains(q.Shape, "/forbidden_sibling") && cacheEntries > 0 {
+				// did the session really get the allowed member through (and so into the cache) before?
+				for qj := 0; qj < qi; qj++ {
+					if strings.Contains(qs[qj].Shape, "/allowed_member") && obs[qj].Step.Forwarded && len(obs[qj].Bad) == 0 {
+						r.Count("forbidden_digit_sibling_sent_after_forwarded_allowed_member", 1)
+						r.Seen("digit_sibling_shapes", strings.SplitN(q.Shape, "/", 3)[1])
+						if len(o.Fwd) == 0 {
+							r.Count("forbidden_digit_sibling_denied", 1)
+						}
+						break
+					}
+				}
 			}
 			isParse := strings.HasPrefix(q.Shape, "extended_parse")
 			var queries []c37Fwd
